@@ -89,6 +89,8 @@ func (x *Exec) checkFrame() {
 		switch {
 		case mod == "*":
 			all = true
+		case strings.HasPrefix(mod, "map:"):
+			declared[mod] = true
 		case strings.Contains(mod, "@"):
 			if key, ft := x.typedFieldKey(x.c.Pkg, mod[strings.Index(mod, "@")+1:]); ft != nil {
 				declared[key] = true
